@@ -1,4 +1,5 @@
 import Nstd.Avl.PropsK
+import Nstd.Avl.LemmasPool
 /-
   Items of Map / MultiMap never change identity while they live — the mechanism-level statement
   behind property C05 ("elements never move while they live") for the two tree containers, for `Int`
@@ -47,6 +48,141 @@ theorem ids_after_removeAt {multi : Bool} {s : St} (hr : Reach multi s) (p : Nat
     have hidx : p < s.t.size := by rw [← hI.size, ← hI.olen]; exact hp
     obtain ⟨_, d2, _, _⟩ := delIdx_spec s.t hI.avl p hidx
     simp only [ids]; rw [d2, map_eraseIdx_fst]
+
+
+/-- **The allocation order of the node pool** (`Map::insert`, Map.hpp:398-413): a non-empty free list gives its head
+    (the most recently released item) and keeps the rest; an empty one allocates a block of `ipbOf` items (the
+    constant is translated from the current headers), hands out its LAST slot and leaves the other slots on the
+    free list, highest on top. -/
+theorem alloc_lifo (s : St) :
+    (∀ i rest, s.free = i :: rest → s.alloc = (i, { s with free := rest })) ∧
+    (s.free = [] → s.alloc = (ipbOf s.multi * s.blocks + (ipbOf s.multi - 1),
+        { s with free := blockItems (ipbOf s.multi * s.blocks) (ipbOf s.multi - 1), blocks := s.blocks + 1 })) :=
+  alloc_lifo' s
+
+/-- **Which address an insert takes** (LIFO free list, blocks of `ipbOf` items, the constant translated from the
+    headers).  If an op from a reachable state creates an item (`size` grows), then
+    * the op is a plain or hinted insert;
+    * the new item — the one the returned iterator points to — has the id `s.alloc.1`: the head of the free list,
+      i.e. the most recently released item, or, when the free list is empty, the LAST slot of a freshly allocated
+      block (`alloc_lifo`);
+    * that id is not the id of any live item (an address is reused only after its item was removed, or never used before);
+    * the free list loses exactly that id (a fresh block puts its other slots on the free list, highest on top). -/
+theorem insert_takes_free_head {multi : Bool} {s : St} (hr : Reach multi s) (op : Op) (r : St × Out)
+    (h : step s op = some r) (hc : r.1.size = s.size + 1) :
+    ((∃ k v, op = .insert k v) ∨ (∃ p k v, op = .insertAt p k v)) ∧
+    (∃ q, r.2.ret = .it q ∧ (ids r.1.t)[q]? = some s.alloc.1) ∧
+    s.alloc.1 ∉ ids s.t ∧ r.1.free = s.alloc.2.free ∧ r.1.blocks = s.alloc.2.blocks := by
+  obtain ⟨hI, hO, _⟩ := invs_reach hr
+  have hreach' : Reach multi r.1 := by
+    have := Reach.step op hr
+    unfold step' at this; rw [h] at this; exact this
+  obtain ⟨_, hO', _⟩ := invs_reach hreach'
+  clear hreach'
+  have fresh : s.alloc.1 ∉ ids s.t := by
+    have := (alloc_spec s hO).1
+    rw [List.nodup_cons] at this
+    intro hm; exact this.1 (List.mem_append_left _ hm)
+  have fin : PoolStep s r → (∃ q, r.2.ret = .it q ∧ (ids r.1.t)[q]? = some s.alloc.1) ∧
+      s.alloc.1 ∉ ids s.t ∧ r.1.free = s.alloc.2.free ∧ r.1.blocks = s.alloc.2.blocks := by
+    intro hp
+    obtain ⟨f1, f2, q, f3, f4⟩ := hp.1 hc
+    rw [hO'.order] at f4
+    exact ⟨⟨q, f3, f4⟩, fresh, f1, f2⟩
+  cases op with
+  | insert k v =>
+    simp only [step, Option.some.injEq] at h; subst h
+    exact ⟨Or.inl ⟨k, v, rfl⟩, fin (insertRoot_pool s k v 0)⟩
+  | insertAt p k v =>
+    simp only [step] at h
+    split at h
+    · exact ⟨Or.inr ⟨p, k, v, rfl⟩, fin (insertAt_pool s p k v r h)⟩
+    · simp at h
+  | removeKey k =>
+    exfalso
+    simp only [step] at h
+    split at h
+    · cases hr' : s.removeAt _ (s.findCmps k) with
+      | none => rw [hr'] at h; simp at h
+      | some r' =>
+        rw [hr'] at h
+        simp only [Option.map_some, Option.some.injEq] at h; subst h
+        unfold St.removeAt at hr'
+        split at hr'
+        · simp at hr'
+        · simp only [Option.some.injEq] at hr'; subst hr'; simp only at hc; omega
+    · simp only [Option.some.injEq] at h; subst h; (try simp only at hc); omega
+  | removeAt p =>
+    exfalso
+    simp only [step] at h
+    unfold St.removeAt at h
+    split at h
+    · simp at h
+    · simp only [Option.some.injEq] at h; subst h; simp only at hc; omega
+  | removeFront =>
+    exfalso
+    simp only [step] at h
+    unfold St.removeAt at h
+    split at h
+    · simp at h
+    · simp only [Option.some.injEq] at h; subst h; simp only at hc; omega
+  | removeBack =>
+    exfalso
+    simp only [step] at h
+    split at h
+    · simp at h
+    · unfold St.removeAt at h
+      split at h
+      · simp at h
+      · simp only [Option.some.injEq] at h; subst h; simp only at hc; omega
+  | clear => exfalso; simp only [step, Option.some.injEq] at h; subst h; simp only at hc; omega
+  | find k => exfalso; simp only [step, Option.some.injEq] at h; subst h; (try simp only at hc); omega
+  | contains k => exfalso; simp only [step, Option.some.injEq] at h; subst h; (try simp only at hc); omega
+  | count k =>
+    exfalso
+    simp only [step] at h
+    split at h
+    · split at h
+      · simp only [Option.some.injEq] at h; subst h; (try simp only at hc); omega
+      · simp only [Option.some.injEq] at h; subst h; (try simp only at hc); omega
+    · simp at h
+  | front =>
+    exfalso
+    simp only [step] at h
+    split at h
+    · simp only [Option.some.injEq] at h; subst h; (try simp only at hc); omega
+    · simp at h
+  | back =>
+    exfalso
+    simp only [step] at h
+    split at h
+    · simp only [Option.some.injEq] at h; subst h; (try simp only at hc); omega
+    · simp at h
+
+/-- **LIFO reuse**: the item created by the first creating op after `remove(iterator)` gets exactly the address of
+    the item just removed, and the free list is back to what it was before the removal. -/
+theorem remove_then_insert_reuses {multi : Bool} {s : St} (hr : Reach multi s) (p : Nat) (r1 : St × Out)
+    (h1 : step s (.removeAt p) = some r1) (op : Op) (r2 : St × Out) (h2 : step r1.1 op = some r2)
+    (hc : r2.1.size = r1.1.size + 1) :
+    ∃ q, r2.2.ret = .it q ∧ (ids r2.1.t)[q]? = (ids s.t)[p]? ∧ r2.1.free = s.free := by
+  obtain ⟨_, hO, _⟩ := invs_reach hr
+  have hr1 : Reach multi r1.1 := by
+    have := Reach.step (.removeAt p) hr
+    unfold step' at this; rw [h1] at this; exact this
+  obtain ⟨_, ⟨q, e1, e2⟩, _, e3, _⟩ := insert_takes_free_head hr1 op r2 h2 hc
+  simp only [step] at h1
+  unfold St.removeAt at h1
+  cases ho : s.order[p]? with
+  | none => rw [ho] at h1; simp at h1
+  | some id =>
+    rw [ho] at h1
+    simp only [Option.some.injEq] at h1; subst h1
+    have ha := (alloc_lifo' { s with t := (delIdx p s.t).1, order := s.order.eraseIdx p, size := s.size - 1, free := id :: s.free }).1 id s.free rfl
+    simp only at e2 e3 ha
+    rw [ha] at e2 e3
+    refine ⟨q, e1, ?_, e3⟩
+    rw [e2, ← hO.order, ho]
+
 
 
 namespace G
